@@ -89,6 +89,8 @@ type ntarget struct {
 	fuel    string // Lean expression for the fuel of a `for cond` loop (an extra parameter when "fuel")
 	nilLean string // Lean expression for `return nil` ("" = nil is the boolean false)
 	fall    string // Lean expression for falling off the end of the located statements ("" = the named results / outs)
+	goTypes []string            // normcell: the Go types of the two operands ("Fixnum", "*Bignum", "*Ratio")
+	opaque  string              // Lean expression for an if-branch that is not understood ("" = an error)
 	oracles map[string][]nparam // calls with two results whose values are parameters of the definition: "callee(arg)" -> (value, ok)
 }
 
@@ -371,7 +373,7 @@ func (t *ntr) call(x *ast.CallExpr, e nenv, want nty) (string, nty, error) {
 	fn := selName(x.Fun)
 	arg := func(i int, w nty) (string, nty, error) { return t.expr(x.Args[i], e, w) }
 	switch fn {
-	case "slip.Fixnum", "int64", "int":
+	case "slip.Fixnum", "Fixnum", "int64", "int":
 		if len(x.Args) != 1 {
 			break
 		}
@@ -410,6 +412,39 @@ func (t *ntr) call(x *ast.CallExpr, e nenv, want nty) (string, nty, error) {
 			return "", 0, t.errf(x, "big.NewInt of %v", ty)
 		}
 		return s, tZ, nil
+	case "big.NewRat":
+		if len(x.Args) == 2 {
+			a, ty, err := arg(0, tI)
+			if err != nil {
+				return "", 0, err
+			}
+			d, isLit := intLit(x.Args[1])
+			if ty != tI || !isLit {
+				return "", 0, t.errf(x, "big.NewRat of %v and a denominator that is not a literal", ty)
+			}
+			if d == "1" {
+				return "((" + a + " : Int) : Rat)", tQ, nil
+			}
+			return "(((" + a + " : Int) : Rat) / ((" + d + " : Int) : Rat))", tQ, nil
+		}
+	case "*slip.Ratio", "*Ratio":
+		s, ty, err := arg(0, tQ)
+		if err != nil {
+			return "", 0, err
+		}
+		if ty != tQ {
+			return "", 0, t.errf(x, "(*Ratio) of %v", ty)
+		}
+		return "(Rep.ratio " + s + ")", tR, nil
+	case "*Bignum":
+		s, ty, err := arg(0, tZ)
+		if err != nil {
+			return "", 0, err
+		}
+		if ty != tZ {
+			return "", 0, t.errf(x, "(*Bignum) of %v", ty)
+		}
+		return "(Rep.big " + s + ")", tR, nil
 	case "*slip.Bignum":
 		s, ty, err := arg(0, tZ)
 		if err != nil {
@@ -568,6 +603,15 @@ func (t *ntr) call(x *ast.CallExpr, e nenv, want nty) (string, nty, error) {
 				return "(wrap64 " + s + ")", tI, nil
 			}
 		}
+		if m == "IsInt64" && len(x.Args) == 0 {
+			s, ty, err := t.expr(se.X, e, tZ)
+			if err != nil {
+				return "", 0, err
+			}
+			if ty == tZ {
+				return "(isFix " + s + ")", tB, nil
+			}
+		}
 		// value.Int64() on a big expression
 		if m == "Int64" && len(x.Args) == 0 {
 			s, ty, err := t.expr(se.X, e, tZ)
@@ -597,6 +641,12 @@ func (t *ntr) coerce(s string, ty, to nty, n ast.Node) (string, error) {
 	}
 	if ty == tI && to == tR {
 		return "(Rep.fix " + s + ")", nil
+	}
+	if ty == tZ && to == tR {
+		return "(Rep.big " + s + ")", nil
+	}
+	if ty == tQ && to == tR {
+		return "(Rep.ratio " + s + ")", nil
 	}
 	return "", t.errf(n, "a value of kind %v where %v is returned", ty, to)
 }
@@ -900,7 +950,10 @@ func (t *ntr) stmts(list []ast.Stmt, e nenv, brk, k nkont, d int) (string, error
 		next1 := next
 		th, err := t.stmts(ts.Body.List, e, brk, next1, d+1)
 		if err != nil {
-			return "", err
+			if t.tgt.opaque == "" {
+				return "", err
+			}
+			th = ind(d+1) + t.tgt.opaque + "\n"
 		}
 		var el string
 		switch te := ts.Else.(type) {
@@ -912,7 +965,10 @@ func (t *ntr) stmts(list []ast.Stmt, e nenv, brk, k nkont, d int) (string, error
 			el, err = t.stmts([]ast.Stmt{te}, e, brk, next1, d+1)
 		}
 		if err != nil {
-			return "", err
+			if t.tgt.opaque == "" {
+				return "", err
+			}
+			el = ind(d+1) + t.tgt.opaque + "\n"
 		}
 		return ind(d) + "if " + c + " then (\n" + th + ind(d) + ") else (\n" + el + ind(d) + ")\n", nil
 	case *ast.SwitchStmt:
@@ -1126,6 +1182,11 @@ func findFunc(file *ast.File, name string) *ast.FuncDecl {
 // fixnumCase finds, in the statement list, the first type switch with a `case slip.Fixnum:` clause
 // and returns the clause body and the statements that follow the switch in the same block.
 func fixnumCase(list []ast.Stmt) (body []ast.Stmt, after []ast.Stmt, bound string, ok bool) {
+	body, after, _, bound, ok = fixnumCasePrefix(list)
+	return
+}
+
+func fixnumCasePrefix(list []ast.Stmt) (body []ast.Stmt, after []ast.Stmt, before []ast.Stmt, bound string, ok bool) {
 	for i, s := range list {
 		if ls, isL := s.(*ast.LabeledStmt); isL {
 			s = ls.Stmt
@@ -1140,11 +1201,11 @@ func fixnumCase(list []ast.Stmt) (body []ast.Stmt, after []ast.Stmt, bound strin
 				if as, isAs := sw.Assign.(*ast.AssignStmt); isAs && len(as.Lhs) == 1 {
 					bound = selName(as.Lhs[0])
 				}
-				return cc.Body, list[i+1:], bound, true
+				return cc.Body, list[i+1:], list[:i], bound, true
 			}
 		}
 	}
-	return nil, nil, "", false
+	return nil, nil, nil, "", false
 }
 
 // fixfixBody finds `if x, ok := A.(slip.Fixnum); ok { if y, ok2 := B.(slip.Fixnum); ok2 { BODY } }`.
@@ -1172,6 +1233,36 @@ func fixfixBody(list []ast.Stmt) (body []ast.Stmt, x, y string, ok bool) {
 		}
 	}
 	return nil, "", "", false
+}
+
+// checkPrefix makes sure that nothing in front of the translated code can produce a result of its
+// own: the statements before a type switch / before the dispatch may declare, assign, check the
+// argument count and raise conditions, but a `return` (a fast path the translation would not see),
+// a `goto` or a nested switch is an error. allowed lists statements that are translated separately.
+func (t *ntr) checkPrefix(list []ast.Stmt, allowed map[ast.Stmt]bool) error {
+	for _, s := range list {
+		if allowed[s] {
+			continue
+		}
+		var bad ast.Node
+		ast.Inspect(s, func(n ast.Node) bool {
+			switch tn := n.(type) {
+			case *ast.ReturnStmt:
+				bad = tn
+			case *ast.BranchStmt:
+				if tn.Tok == token.GOTO {
+					bad = tn
+				}
+			case *ast.SwitchStmt, *ast.TypeSwitchStmt, *ast.FuncLit:
+				bad = tn
+			}
+			return bad == nil
+		})
+		if bad != nil {
+			return t.errf(bad, "a statement before the translated code of %s can return a result of its own (a new fast path?); it is not understood", t.tgt.fn)
+		}
+	}
+	return nil
 }
 
 func isRealAssert(s ast.Stmt) bool {
@@ -1225,9 +1316,13 @@ func (tg *ntarget) translate(repo string, known map[string]*ntarget) (string, er
 	case "case":
 		var bound string
 		var ok bool
-		body, after, bound, ok = fixnumCase(fd.Body.List)
+		var before []ast.Stmt
+		body, after, before, bound, ok = fixnumCasePrefix(fd.Body.List)
 		if !ok {
 			return "", fmt.Errorf("%s: %s has no type switch with a `case slip.Fixnum:` clause", tg.file, tg.fn)
+		}
+		if err := t.checkPrefix(before, nil); err != nil {
+			return "", err
 		}
 		if bound != "" && bound != tg.params[0].goName {
 			return "", fmt.Errorf("%s: the type switch of %s binds %s, the target expects %s", tg.file, tg.fn, bound, tg.params[0].goName)
@@ -1236,8 +1331,58 @@ func (tg *ntarget) translate(repo string, known map[string]*ntarget) (string, er
 		var x, y string
 		var ok bool
 		body, x, y, ok = fixfixBody(fd.Body.List)
+		if !ok && tg.fall != "" {
+			// no fast path: two fixnums take the general route
+			var b strings.Builder
+			fmt.Fprintf(&b, "/-- %s — `%s` in %s has no such fast path (the general route is taken) -/\n", tg.doc, tg.fn, tg.file)
+			fmt.Fprintf(&b, "def %s (%s : Int) (%s : Int) : %s :=\n  %s\n", tg.lean, tg.params[0].lean, tg.params[1].lean, tg.retLean, tg.fall)
+			return b.String(), nil
+		}
 		if !ok || x != tg.params[0].goName || y != tg.params[1].goName {
 			return "", fmt.Errorf("%s: %s has no fixnum × fixnum fast path over (%s, %s)", tg.file, tg.fn, tg.params[0].goName, tg.params[1].goName)
+		}
+	case "normcell":
+		// NormalizeNumber: the clause of the outer type switch (on v0) for the first parameter's Go
+		// type, the statements in front of its inner type switch (on v1), and the inner clause for
+		// the second parameter's Go type
+		var outer *ast.TypeSwitchStmt
+		ast.Inspect(fd.Body, func(n ast.Node) bool {
+			if sw, ok := n.(*ast.TypeSwitchStmt); ok && outer == nil {
+				outer = sw
+			}
+			return outer == nil
+		})
+		clause := func(sw *ast.TypeSwitchStmt, ty string) []ast.Stmt {
+			if sw == nil {
+				return nil
+			}
+			for _, c := range sw.Body.List {
+				cc := c.(*ast.CaseClause)
+				if len(cc.List) == 1 && selName(cc.List[0]) == ty {
+					return cc.Body
+				}
+			}
+			return nil
+		}
+		ob := clause(outer, tg.goTypes[0])
+		for i, st := range ob {
+			if inner, ok := st.(*ast.TypeSwitchStmt); ok {
+				ib := clause(inner, tg.goTypes[1])
+				if ib == nil {
+					break
+				}
+				if err := t.checkPrefix(ob[:i], nil); err != nil {
+					return "", err
+				}
+				body = append(append([]ast.Stmt{}, ob[:i]...), ib...)
+				if len(ob[i+1:]) != 0 {
+					return "", fmt.Errorf("%s: statements after the inner type switch of NormalizeNumber are not understood", tg.file)
+				}
+				break
+			}
+		}
+		if body == nil {
+			return "", fmt.Errorf("%s: NormalizeNumber has no cell (%s, %s)", tg.file, tg.goTypes[0], tg.goTypes[1])
 		}
 	case "rangebody":
 		// the body of the first `for … := range …` loop of the function
@@ -1274,6 +1419,15 @@ func (tg *ntarget) translate(repo string, known map[string]*ntarget) (string, er
 				}
 				if _, isSw := st.(*ast.SwitchStmt); isSw && start >= 0 {
 					body = fd.Body.List[start : i+1]
+					allowed := map[ast.Stmt]bool{}
+					for _, ps := range fd.Body.List[:start] {
+						if _, _, _, isFast := fixfixBody([]ast.Stmt{ps}); isFast {
+							allowed[ps] = true // the fixnum × fixnum fast path: translated as compareFix
+						}
+					}
+					if err := t.checkPrefix(fd.Body.List[:start], allowed); err != nil {
+						return "", err
+					}
 					break
 				}
 			}
@@ -1287,7 +1441,7 @@ func (tg *ntarget) translate(repo string, known map[string]*ntarget) (string, er
 	var pre string
 	for _, p := range tg.pre {
 		w := strings.SplitN(p, ":", 3)
-		ty := map[string]nty{"I": tI, "U": tU, "B": tB, "Z": tZ, "R": tR, "O": tO}[w[1]]
+		ty := map[string]nty{"I": tI, "U": tU, "B": tB, "Z": tZ, "R": tR, "O": tO, "Q": tQ}[w[1]]
 		e[w[0]] = ty
 		if ty != tO {
 			pre += "  let " + nIdent(w[0]) + " := " + w[2] + ";\n"
@@ -1356,6 +1510,7 @@ func numTargets() []*ntarget {
 		{lean: "negFixnum", file: "pkg/cl/number.go", fn: "negFixnum", locate: "func", params: ip("x"), ret: tR, retLean: "Rep",
 			doc: "negation of a fixnum"},
 		{lean: "compareFix", file: "pkg/cl/number.go", fn: "compareReals", locate: "fixfix", params: ip("fx", "fy"), ret: tI, retLean: "Int",
+			fall: "(cmpRat (fx : Rat) (fy : Rat))",
 			doc: "fixnum × fixnum fast path of compareReals (-1, 0, 1)"},
 		{lean: "floorFix", file: "pkg/cl/floor.go", fn: "floor", locate: "case", params: ip("tn", "div"), pre: []string{"q:O:", "r:O:"}, outs: qr, ret: tI, retLean: "Int × Int",
 			doc: "fixnum branch of floor: quotient and remainder"},
@@ -1402,6 +1557,44 @@ func numTargets() []*ntarget {
 			doc: "same(x, y) on two reals: none = different, some y = equal (the value the next argument of = is compared with)"},
 		{lean: "maxBody", file: "pkg/cl/max.go", fn: "Max.Call", locate: "rangebody", params: qp("max", "arg"), outs: qp("max"), ret: tQ, retLean: "Rat", doc: "loop body of max: the new maximum"},
 		{lean: "minBody", file: "pkg/cl/min.go", fn: "Min.Call", locate: "rangebody", params: qp("min", "arg"), outs: qp("min"), ret: tQ, retLean: "Rat", doc: "loop body of min: the new minimum"},
+
+		// NormalizeNumber (normalizenumber.go) on the exact types: one definition per (type of v0, type of v1)
+		{lean: "normFixFix", file: "normalizenumber.go", fn: "NormalizeNumber", locate: "normcell", goTypes: []string{"Fixnum", "Fixnum"},
+			params: []nparam{{"t0", "t0", tI}, {"t1", "t1", tI}}, pre: []string{"v1:I:t1", "n0:O:", "n1:O:"}, outs: []nparam{{"n0", "n0", tR}, {"n1", "n1", tR}},
+			ret: tR, retLean: "Option (Rep × Rep)", some: true, opaque: "none",
+			doc: "NormalizeNumber on (Fixnum, Fixnum): the two operands in their common representation; none = they leave the exact types (long-floats)"},
+		{lean: "normFixBig", file: "normalizenumber.go", fn: "NormalizeNumber", locate: "normcell", goTypes: []string{"Fixnum", "*Bignum"},
+			params: []nparam{{"t0", "t0", tI}, {"t1", "t1", tZ}}, pre: []string{"v1:Z:t1", "n0:O:", "n1:O:"}, outs: []nparam{{"n0", "n0", tR}, {"n1", "n1", tR}},
+			ret: tR, retLean: "Option (Rep × Rep)", some: true, opaque: "none",
+			doc: "NormalizeNumber on (Fixnum, *Bignum): the two operands in their common representation; none = they leave the exact types (long-floats)"},
+		{lean: "normFixRat", file: "normalizenumber.go", fn: "NormalizeNumber", locate: "normcell", goTypes: []string{"Fixnum", "*Ratio"},
+			params: []nparam{{"t0", "t0", tI}, {"t1", "t1", tQ}}, pre: []string{"v1:Q:t1", "n0:O:", "n1:O:"}, outs: []nparam{{"n0", "n0", tR}, {"n1", "n1", tR}},
+			ret: tR, retLean: "Option (Rep × Rep)", some: true, opaque: "none",
+			doc: "NormalizeNumber on (Fixnum, *Ratio): the two operands in their common representation; none = they leave the exact types (long-floats)"},
+		{lean: "normBigFix", file: "normalizenumber.go", fn: "NormalizeNumber", locate: "normcell", goTypes: []string{"*Bignum", "Fixnum"},
+			params: []nparam{{"t0", "t0", tZ}, {"t1", "t1", tI}}, pre: []string{"v1:I:t1", "n0:O:", "n1:O:"}, outs: []nparam{{"n0", "n0", tR}, {"n1", "n1", tR}},
+			ret: tR, retLean: "Option (Rep × Rep)", some: true, opaque: "none",
+			doc: "NormalizeNumber on (*Bignum, Fixnum): the two operands in their common representation; none = they leave the exact types (long-floats)"},
+		{lean: "normBigBig", file: "normalizenumber.go", fn: "NormalizeNumber", locate: "normcell", goTypes: []string{"*Bignum", "*Bignum"},
+			params: []nparam{{"t0", "t0", tZ}, {"t1", "t1", tZ}}, pre: []string{"v1:Z:t1", "n0:O:", "n1:O:"}, outs: []nparam{{"n0", "n0", tR}, {"n1", "n1", tR}},
+			ret: tR, retLean: "Option (Rep × Rep)", some: true, opaque: "none",
+			doc: "NormalizeNumber on (*Bignum, *Bignum): the two operands in their common representation; none = they leave the exact types (long-floats)"},
+		{lean: "normBigRat", file: "normalizenumber.go", fn: "NormalizeNumber", locate: "normcell", goTypes: []string{"*Bignum", "*Ratio"},
+			params: []nparam{{"t0", "t0", tZ}, {"t1", "t1", tQ}}, pre: []string{"v1:Q:t1", "n0:O:", "n1:O:"}, outs: []nparam{{"n0", "n0", tR}, {"n1", "n1", tR}},
+			ret: tR, retLean: "Option (Rep × Rep)", some: true, opaque: "none",
+			doc: "NormalizeNumber on (*Bignum, *Ratio): the two operands in their common representation; none = they leave the exact types (long-floats)"},
+		{lean: "normRatFix", file: "normalizenumber.go", fn: "NormalizeNumber", locate: "normcell", goTypes: []string{"*Ratio", "Fixnum"},
+			params: []nparam{{"t0", "t0", tQ}, {"t1", "t1", tI}}, pre: []string{"v1:I:t1", "n0:O:", "n1:O:"}, outs: []nparam{{"n0", "n0", tR}, {"n1", "n1", tR}},
+			ret: tR, retLean: "Option (Rep × Rep)", some: true, opaque: "none",
+			doc: "NormalizeNumber on (*Ratio, Fixnum): the two operands in their common representation; none = they leave the exact types (long-floats)"},
+		{lean: "normRatBig", file: "normalizenumber.go", fn: "NormalizeNumber", locate: "normcell", goTypes: []string{"*Ratio", "*Bignum"},
+			params: []nparam{{"t0", "t0", tQ}, {"t1", "t1", tZ}}, pre: []string{"v1:Z:t1", "n0:O:", "n1:O:"}, outs: []nparam{{"n0", "n0", tR}, {"n1", "n1", tR}},
+			ret: tR, retLean: "Option (Rep × Rep)", some: true, opaque: "none",
+			doc: "NormalizeNumber on (*Ratio, *Bignum): the two operands in their common representation; none = they leave the exact types (long-floats)"},
+		{lean: "normRatRat", file: "normalizenumber.go", fn: "NormalizeNumber", locate: "normcell", goTypes: []string{"*Ratio", "*Ratio"},
+			params: []nparam{{"t0", "t0", tQ}, {"t1", "t1", tQ}}, pre: []string{"v1:Q:t1", "n0:O:", "n1:O:"}, outs: []nparam{{"n0", "n0", tR}, {"n1", "n1", tR}},
+			ret: tR, retLean: "Option (Rep × Rep)", some: true, opaque: "none",
+			doc: "NormalizeNumber on (*Ratio, *Ratio): the two operands in their common representation; none = they leave the exact types (long-floats)"},
 		{lean: "signumFix", file: "pkg/cl/signum.go", fn: "Signum.Call", locate: "case", params: ip("ta"), pre: []string{"sig:I:0"}, ret: tI, retLean: "Int", doc: "fixnum branch of signum"},
 	}
 }
